@@ -25,7 +25,7 @@ class Ob:
     def __init__(self, id, props, tu, roots, harness, entry='harness', spec=None, enforce=None, replace=(),
                  tier='U', unwind=None, unwindset=None, defines=None, cfg='kernel', timeout=300, quick=True,
                  covers=0, expect_loops=(), note='', flags=(), bounds=None, loop_contracts=True, object_bits=12,
-                 expected_fail=(), kissat=False, spec_text='', includes=(), copies=(), stubs=None, inline_vec=False, adaptive_unwind=True, inits=None, prebuild_shape=None, unwind_start=3, quick_for=None, preamble='', mem_gb=None):
+                 expected_fail=(), kissat=False, spec_text='', includes=(), copies=(), stubs=None, inline_vec=False, adaptive_unwind=True, inits=None, prebuild_shape=None, unwind_start=3, quick_for=None, preamble='', mem_gb=None, circ_class='TopologyKernel', preamble_after=''):
         self.id = id; self.props = props; self.tu = tu; self.roots = roots; self.harness = harness; self.entry = entry
         self.mesh_harness = None
         if not isinstance(harness, str):
@@ -34,7 +34,7 @@ class Ob:
         self.unwind = unwind; self.unwindset = unwindset; self.defines = defines or {}; self.cfg = cfg
         self.timeout = timeout; self.quick = quick; self.covers = covers; self.expect_loops = expect_loops
         self.note = note; self.flags = list(flags); self.bounds = bounds or {}; self.loop_contracts = loop_contracts
-        self.object_bits = object_bits; self.expected_fail = expected_fail; self.kissat = kissat; self.spec_text = spec_text; self.includes = list(includes); self.copies = list(copies); self.stubs = stubs or {}; self.inline_vec = inline_vec; self.adaptive_unwind = adaptive_unwind; self.inits = inits or {}; self.prebuild_shape = prebuild_shape; self.unwind_start = unwind_start; self.quick_for = quick_for; self.preamble = preamble; self.mem_gb = mem_gb
+        self.object_bits = object_bits; self.expected_fail = expected_fail; self.kissat = kissat; self.spec_text = spec_text; self.includes = list(includes); self.copies = list(copies); self.stubs = stubs or {}; self.inline_vec = inline_vec; self.adaptive_unwind = adaptive_unwind; self.inits = inits or {}; self.prebuild_shape = prebuild_shape; self.unwind_start = unwind_start; self.quick_for = quick_for; self.preamble = preamble; self.mem_gb = mem_gb; self.circ_class = circ_class; self.preamble_after = preamble_after
 
 # ---------------------------------------------------------------------------------------------- AST cache
 TUS = {'kernel': 'tu/kernel.cc', 'tethex': 'tu/tethex.cc', 'ovmb': 'tu/ovmb.cc', 'vector': 'tu/vector.cc'}
@@ -111,8 +111,9 @@ def ghost_stub_bodies(unit, ob=None):
         m = re.match(r'^ResourceManager__(resize_props|reserve_props|entity_deleted|swap_property_elements|copy_property_elements|clear_props)_(\w+)$', cn)
         norm = lambda x: re.sub(r'_+', '_', re.sub(r'[^A-Za-z0-9_]', '_', x.replace('OpenVolumeMesh::', '')))
         custom = [b for q, b in (ob.stubs.items() if ob else []) if norm(q) == norm(cn) or norm(cn).startswith(norm(q) + '_')]
-        if custom:
-            out.append(proto + '\n' + custom[0]); continue
+        exact = [b for q, b in (ob.stubs.items() if ob else []) if norm(q) == norm(cn)]
+        if exact or custom:
+            out.append(proto + '\n' + (exact or custom)[0]); continue
         if cn == 'ResourceManager__clear_all_props':
             out.append(proto + ' { /* properties become private; storages stay tracked */ }'); continue
         if not m: raise Cxx2cError('no ghost body for stub ' + cn)
@@ -128,6 +129,10 @@ def ghost_stub_bodies(unit, ob=None):
     return '\n'.join(out) + '\n'
 
 # ---------------------------------------------------------------------------------------------- one obligation
+def _copy_ob(ob):
+    import copy
+    return copy.copy(ob)
+
 def sh(cmd, timeout, log, mem_gb=8, cwd=None):
     pre = 'ulimit -v %d; ' % (mem_gb * 1024 * 1024)
     t0 = time.time()
@@ -164,7 +169,7 @@ def run_ob(ob, tier, workdir):
         cfg['prelude'] = 'extern int g_k, g_j; extern unsigned long g_u;\n'
         cfg['vstd_inline'] = ob.inline_vec
         cfg['stubs'] = dict(cfg.get('stubs', {}))
-        for q in ob.stubs: cfg['stubs'][q] = 1
+        for q in ob.stubs: cfg['stubs'][q.split('__')[0]] = 1       # a key may carry an overload suffix (used to pick the body)
         unit = Unit(ix, contracts=contracts, cfg=cfg)
         for r in ob.roots:
             if isinstance(r, str): unit.want(r, all_overloads=True)
@@ -173,6 +178,25 @@ def run_ob(ob, tier, workdir):
         for ck in ob.copies:
             unit.em.fc = None
             unit.em.copy_helper(unit.em.canon(parse_type(ck)))
+        # circulator placeholders in the harness: @TYPE(f)@ @INC(f)@ @DEC(f)@ for a TopologyKernel factory function f
+        circ = {}
+        for mm in set(re.findall(r'@(?:TYPE|INC|DEC)\((\w+)\)@', ob.harness)):
+            from build import find_funcs
+            fd = find_funcs(ix, 'OpenVolumeMesh::%s::%s' % (ob.circ_class, mm))
+            if len(fd) != 1: raise Cxx2cError('must-fire: circulator factory %s not found' % mm)
+            fcn = unit.em.request_func(fd[0]); unit.roots[fcn] = fd[0]
+            rt = unit.em.ret_type_of(fd[0])
+            key = rt.key()
+            names = {}
+            for opn, tag in (('operator++', 'INC'), ('operator--', 'DEC')):
+                cands = [f for f in find_funcs(ix, key + '::' + opn) if len(unit.em.params_of(f)) == 0]
+                if len(cands) != 1: raise Cxx2cError('must-fire: %s of %s: %d candidates' % (opn, key, len(cands)))
+                names[tag] = unit.em.request_func(cands[0]); unit.roots[names[tag]] = cands[0]
+            names['TYPE'] = unit.em.ctype(rt); names['FACTORY'] = fcn
+            circ[mm] = names
+        if circ:
+            ob = _copy_ob(ob)
+            ob.harness = re.sub(r'@(TYPE|INC|DEC)\((\w+)\)@', lambda m2: circ[m2.group(2)][m2.group(1)], ob.harness)
         init_text = ''
         if ob.inits:
             from emit import FuncCtx
@@ -197,7 +221,7 @@ def run_ob(ob, tier, workdir):
         defs = ''.join('#define %s %s\n' % kv for kv in ob.defines.items()) + ('#define VSTD_INLINE 1\n' if ob.inline_vec else '')
         stubs = ghost_stub_bodies(unit, ob) if unit.em.stub_protos else ''
         inc = ''.join('#include "%s/spec/%s"\n' % (ROOT, h) for h in ob.includes)
-        head = defs + '#include "gen.c"\nint g_k, g_j; unsigned long g_u;\n#include "%s/spec/common.h"\n' % ROOT + ob.preamble + init_text + inc + stubs
+        head = defs + '#include "gen.c"\nint g_k, g_j; unsigned long g_u;\n#include "%s/spec/common.h"\n' % ROOT + ob.preamble + init_text + inc + stubs + ob.preamble_after
         shape_w = ''
         if ob.prebuild_shape is not None:
             # the shape is constructed by running the extracted construction code natively; CBMC starts from its witness
@@ -246,7 +270,7 @@ def run_ob(ob, tier, workdir):
         if rc != 0:
             res['status'] = 'undecided'; res['reason'] = 'goto-instrument failed: ' + out[-800:]; res['wall_s'] = time.time() - t0; return res
         binp = 'b.gb'
-    cb0 = ['cbmc', binp] + CBMC_FLAGS + ob.flags
+    cb0 = ['cbmc', binp] + [f for f in CBMC_FLAGS if not f.startswith('-no:') and ('-no:' + f) not in ob.flags] + [f for f in ob.flags if not f.startswith('-no:')]
     if ob.object_bits: cb0 += ['--object-bits', str(ob.object_bits)]
     if ob.kissat: cb0 += ['--external-sat-solver', 'kissat']
     to = ob.timeout if tier == 'quick' else max(ob.timeout, 900)
@@ -429,7 +453,7 @@ def make_replay(ob, r, path, prop):
     """write the replay file: failed obligations + CBMC trace; returns True when a native replay confirmed"""
     d = os.path.dirname(r['log'])
     binp = 'b.gb' if os.path.exists(os.path.join(d, 'b.gb')) else 'a.gb'
-    cb = ['cbmc', binp] + CBMC_FLAGS + ob.flags + ['--trace', '--stop-on-fail'] + r.get('unwind_flags', [])
+    cb = ['cbmc', binp] + [f for f in CBMC_FLAGS if ('-no:' + f) not in ob.flags] + [f for f in ob.flags if not f.startswith('-no:')] + ['--trace', '--stop-on-fail'] + r.get('unwind_flags', [])
     if ob.object_bits: cb += ['--object-bits', str(ob.object_bits)]
     rc, out, dt = sh(cb, 600, r['log'], cwd=d)
     i = max(out.find('Trace for'), out.find('Counterexample:'))
